@@ -294,7 +294,7 @@ func (p *PALS) Align(complement bool) (dp.Hits, error) {
 	p.notifyf("Identified %d filter hits", p.morass.Len())
 
 	p.notify("Merging")
-	merger := filter.NewMerger(p.index, working, p.FilterParams, p.MaxIGap, p.selfCompare)
+	merger := filter.NewMerger(p.index, working, p.FilterParams, p.MaxIGap, p.selfCompare && !complement)
 	var h filter.Hit
 	for {
 		if err = p.morass.Pull(&h); err != nil {
